@@ -5,6 +5,7 @@ use std::collections::{BTreeMap, HashSet};
 pub mod c01;
 pub mod c02;
 pub mod c04;
+pub mod c05;
 pub mod c06;
 pub mod c07;
 pub mod c09;
@@ -95,6 +96,7 @@ pub fn generate(prop: &str, tier: &str, g: &mut Gen) {
         "C01" => c01::generate(g, thorough),
         "C14" => c14::generate(g, thorough),
         "C06" => c06::generate(g, thorough),
+        "C05" => c05::generate(g, thorough),
         "C11" => c11::generate(g, thorough),
         _ => {}
     }
